@@ -329,6 +329,13 @@ def run(ctx):
     r10type.check(ctx, ctx.need_fn(vprog, "val_get_nc_type"), "R10.typerange", "ncvalidator")
     check_sticky(ctx, vprog)
     dprog = ctx.program(names=["ncmpidiff.c", "cdfdiff.c"])
+    from rules import r9divzero, r10reccount, r10recstride
+    ctx.rule("R9.divzero", "diff tools: a modulo / division by an object count is reached only when the count is positive")
+    r9divzero.check(ctx, dprog, "R9.divzero", ("ncmpidiff.c", "cdfdiff.c"), min_instances=12)
+    ctx.rule("R10.reccount", "a diff tool that reads numrecs from the headers compares the two files' record counts")
+    r10reccount.check(ctx, dprog, "R10.reccount", ("ncmpidiff.c", "cdfdiff.c"))
+    ctx.rule("R10.recstride", "record r of a variable is addressed at begin + r * (the file's record size)")
+    r10recstride.check(ctx, ctx.program(groups=["lib", "util"]), "R10.recstride", min_instances=6)
     total = 0
     for uname, tool in (("ncmpidiff.c", "ncmpidiff"), ("cdfdiff.c", "cdfdiff")):
         unit = [u for n, u in dprog.units.items() if n.endswith(uname)]
